@@ -380,3 +380,82 @@ func isSdkMathAlias(v ssa.Value) bool {
 	}
 	return isPureExternal("cosmossdk.io/math." + g.Name())
 }
+
+// globalInitValue: the value a package-level variable gets in its package's init function when that is a call of
+// a modelled constructor on constants (var Max = sdk.NewDec(2)), or a constant. The variable is assumed never
+// to be reassigned (listed as an assumption when used).
+func (ex *Exec) globalInitValue(fr *Frame, st *State, g *ssa.Global) *Term {
+	W := ex.W
+	if W.globalInits == nil {
+		W.globalInits = map[*ssa.Global]ssa.Value{}
+		for _, sp := range W.spkgs {
+			initFn := sp.Func("init")
+			if initFn == nil {
+				continue
+			}
+			for _, b := range initFn.Blocks {
+				for _, in := range b.Instrs {
+					if s, ok := in.(*ssa.Store); ok {
+						if gl, ok := s.Addr.(*ssa.Global); ok {
+							if _, dup := W.globalInits[gl]; dup {
+								W.globalInits[gl] = nil // stored more than once: unknown
+							} else {
+								W.globalInits[gl] = s.Val
+							}
+						}
+					}
+				}
+			}
+		}
+	}
+	v := W.globalInits[g]
+	if v == nil {
+		return nil
+	}
+	switch x := v.(type) {
+	case *ssa.Const:
+		return ex.constTerm(x)
+	case *ssa.Call:
+		cc := x.Common()
+		var args []*Term
+		for _, a := range cc.Args {
+			c, ok := a.(*ssa.Const)
+			if !ok {
+				return nil
+			}
+			args = append(args, ex.constTerm(c))
+		}
+		var names []string
+		if callee := cc.StaticCallee(); callee != nil {
+			names = []string{callee.String()}
+		} else if u, ok := cc.Value.(*ssa.UnOp); ok {
+			if gg, ok := u.X.(*ssa.Global); ok && gg.Pkg != nil && gg.Pkg.Pkg.Path() == "github.com/cosmos/cosmos-sdk/types" {
+				names = []string{"cosmossdk.io/math." + gg.Name(), "cosmossdk.io/math.Legacy" + gg.Name()}
+			}
+		}
+		for _, n := range names {
+			if m, ok := libModels[n]; ok {
+				scratch := st.clone()
+				if res, ok := m(fr, scratch, cc, args); ok && len(res) == 1 {
+					return res[0]
+				}
+			}
+		}
+	}
+	return nil
+}
+
+func init() {
+	// LegacyDec operations on scaled integers, for use in contracts (same definitions as the library models)
+	extraSpecFuncs["decmul"] = func(ctx *EvalCtx, a []CV) CV {
+		ex := ctx.ex
+		return CV{ex.roundHalfEvenDiv(ex.f.Mul(a[0].t, a[1].t), ex.decP()), nil}
+	}
+	extraSpecFuncs["decquo"] = func(ctx *EvalCtx, a []CV) CV {
+		ex := ctx.ex
+		return CV{ex.roundHalfEvenDiv(ex.f.Mul(a[0].t, ex.decP()), a[1].t), nil}
+	}
+	extraSpecFuncs["dec"] = func(ctx *EvalCtx, a []CV) CV { // dec(n): the integer n as a LegacyDec
+		return CV{ctx.ex.f.Mul(a[0].t, ctx.ex.decP()), nil}
+	}
+}
